@@ -402,11 +402,16 @@ func (r *c13Run) do(w int, k int, op c13Op, record bool) {
 		}
 	case "entries":
 		o.List = c13Hashes(l.GetEntries().Slice())
-	case "iterator", "iter2":
+	case "iterator", "iter2", "iterlte":
 		opts := &ipfslog.IteratorOptions{}
 		if op.Kind == "iter2" {
 			n := 2
 			opts.Amount = &n
+		}
+		if op.Kind == "iterlte" {
+			// explicit upper bound: Iterator looks the bound up in the log while it holds the read lock
+			c, _ := cid.Decode(r.initial[len(r.initial)-1])
+			opts.LTE = []cid.Cid{c}
 		}
 		ch := make(chan iface.IPFSLogEntry, 4096)
 		if err := l.Iterator(opts, ch); err != nil {
@@ -763,6 +768,18 @@ func (r *c13Run) evaluate(prop string) []monitorFailure {
 					fail("read-entries", prop+":read:entries", tag+"initial entry "+h+" missing")
 				}
 			}
+		case "iterlte":
+			if bounded {
+				break
+			}
+			// the causal past of the last initial entry, newest first: exactly the initial entries
+			want := append([]string{}, r.initial...)
+			for a, b := 0, len(want)-1; a < b; a, b = a+1, b-1 {
+				want[a], want[b] = want[b], want[a]
+			}
+			if o.Err == "" && strings.Join(o.List, ",") != strings.Join(want, ",") {
+				fail("read-iterator", prop+":read:iterator", tag+fmt.Sprintf("Iterator(LTE=last initial entry) returned %v, want %v", o.List, want))
+			}
 		case "iterator", "iter2":
 			if bounded {
 				break
@@ -827,7 +844,7 @@ func (r *c13Run) evaluate(prop string) []monitorFailure {
 // ---------------------------------------------------------------------------------------------
 // runner
 
-var c13Kinds = []string{"append", "join", "values", "heads", "get", "has", "len", "snapshot", "jsonlog", "entries", "iterator", "iter2", "setid", "multihash"}
+var c13Kinds = []string{"append", "join", "values", "heads", "get", "has", "len", "snapshot", "jsonlog", "entries", "iterator", "iter2", "iterlte", "setid", "multihash"}
 
 type c13Tally struct {
 	res      *result
